@@ -120,6 +120,8 @@ C02bp(c) ==
   ELSE IF ~StemUniform(db, R) THEN <<"fail", "StemOnOneLevel", "optimal">>
   ELSE IF ~Stable(R, LevelsOf(db, R)) THEN <<"fail", "NoLowerMove", "optimal">>
   ELSE IF ObjText(db, m) < Obj(R, FcfsLevels(R)) THEN <<"fail", "NotWorseThanFcfs", "optimal">>
+  \* necessary for optimality, decided without enumeration (also on components too big for the brute force)
+  ELSE IF ~NoSwapImproves(R, LevelsOf(db, R)) THEN <<"fail", "Optimal", "two levels of a component could trade places">>
   ELSE IF (\A C \in KnotComponents(R) : Feasible(C, MaxBFStems)) /\ ObjText(db, m) # Opt(R)
        THEN <<"fail", "Optimal", "optimal">>
   ELSE IF c.explicit.err # "" THEN <<"fail", "NoException", "convert_to_dot_bracket">>
